@@ -357,6 +357,9 @@ def apply_replacements(body, repls, item):
 def desugar_option_map(body, recv, item):
     """`recv.map(|p| e)` -> `match recv { Some(p) => Some(e), None => None }` (the definition of Option::map).
     Verus knows nothing about the result of an un-annotated closure; the match form is what the closure call means."""
+    is_result = recv.startswith("result:")
+    if is_result:
+        recv = recv[len("result:"):]
     m = mask(body)
     pat = re.compile(re.escape(recv) + r"\s*\.\s*map\s*\(\s*\|([^|]*)\|")
     ms = list(pat.finditer(m))
@@ -368,7 +371,10 @@ def desugar_option_map(body, recv, item):
     close = s2.match_close(par)
     param = body[mm.start(1):mm.end(1)].strip()
     expr = body[mm.end():close].strip()
-    new = "match %s { Some(%s) => Some(%s), None => None }" % (recv, param, expr)
+    if is_result:
+        new = "match %s { Ok(%s) => Ok(%s), Err(verif_e) => Err(verif_e) }" % (recv, param, expr)
+    else:
+        new = "match %s { Some(%s) => Some(%s), None => None }" % (recv, param, expr)
     item.rewrites.append({"old": body[mm.start():close + 1], "new": new, "note": "std-equivalent: Option::map(closure) desugared to its defining match"})
     return body[:mm.start()] + new + body[close + 1:]
 
@@ -858,6 +864,11 @@ class Gen:
                 if d == "annotate":
                     # //@annotate <binding text> <Type>: adds `: Type` to a `let` binding (no executable token changes)
                     annotates.append((toks[1], toks[2]))
+                    i += 1
+                    continue
+                if d == "desugar_result_map":
+                    # `<recv>.map(|p| body)` on a Result -> `match <recv> { Ok(p) => Ok(body), Err(verif_e) => Err(verif_e) }`
+                    desugars.append("result:" + toks[1])
                     i += 1
                     continue
                 if d == "desugar_option_map":
